@@ -8,7 +8,7 @@ Lemma getinputmode_agree : mem_s "py_getinputmode" translated = true ->
   forall d, py_getinputmode (gbytes d) = Ok (gint (Z.of_N (getinputmode d))).
 Proof.
   intros Hin d. first [untranslated Hin | clear Hin].
-  unfold py_getinputmode, getinputmode, im_len_poll, im_valget, im_short_ids, im_short_len.
-  cbn [g_len g_sub g_slice g_le g_lt g_in existsb gbytes gint bind g_eq pv_eq].
-  atoms; cbn [bind orb andb negb]; try reflexivity; exfalso; lia.
+  all: unfold py_getinputmode, getinputmode, im_len_poll, im_valget, im_short_ids, im_short_len.
+  all: cbn [g_len g_sub g_slice g_le g_lt g_in existsb gbytes gint bind g_eq pv_eq].
+  all: atoms; cbn [bind orb andb negb]; try reflexivity; exfalso; lia.
 Qed.
